@@ -570,7 +570,7 @@ pub async fn has_certificate_and_artifact(w: &World, entity: &SignedEntityType) 
 }
 
 /// Replay one history on a fresh real aggregator; invariants are evaluated after every event.
-pub fn replay(scratch: &std::path::Path, history: &[Ev], nsigners: usize) -> RunResult {
+pub fn replay(scratch: &std::path::Path, history: &[Ev], nsigners: usize, closing_rounds: usize) -> RunResult {
     let dir = fresh_dir(scratch);
     let rt = tokio::runtime::Builder::new_current_thread().enable_all().build().expect("tokio runtime");
     let hist_json = serde_json::to_value(history).unwrap();
@@ -588,11 +588,23 @@ pub fn replay(scratch: &std::path::Path, history: &[Ev], nsigners: usize) -> Run
         }
         let canon = canon(&w).await;
         let produced = chk.produced;
+        let state = w.state();
+        // fair closing environment: whatever the explored history left behind, honest signers keep
+        // resubmitting and the machine keeps cycling; the invariants must keep holding (this is what
+        // exposes latent damage, e.g. an entity that can be certified a second time)
+        let round = [Ev::Tick, Ev::SigAll(Ty::Msd), Ev::SigAll(Ty::Cdb), Ev::Tick, Ev::Quiesce];
+        for r in 0..closing_rounds {
+            for ev in &round {
+                apply_mut(&mut w, ev, &mut log).await;
+                let ctx = json!({"history": hist_json, "failing_step": format!("closing round {r}"), "event": ev, "log": log});
+                violations.extend(chk.check(&w, &ctx).await);
+            }
+        }
         RunResult {
             canon,
             violations,
             nontrivial: produced > 0,
-            outcome: format!("certificates={produced},state={}", w.state()),
+            outcome: format!("certificates={produced},state={state}"),
             disabled: false,
         }
     });
